@@ -123,6 +123,15 @@ def file_traces(tid0, res, encoding, meta, desc):
                 views.append(('S', folder + '/' + fn, ok_s, want, list(sc.count_years.items())))
             elif cat == 'X':
                 views.append(('S', folder + '/' + fn, ok_s, want, list(sc.count_context_sensitive.items())))
+    # --- the Markov levels and their probabilities (Omen/pcfg_omen_prob.txt -> grammar['M'])
+    mp = os.path.join(d, 'Omen', 'pcfg_omen_prob.txt')
+    if os.path.exists(mp):
+        want = [(v, sfloat(p)) for v, p in rulesets.neutral_value_prob(mp, encoding)]
+        got_g = []
+        if ok_g and 'M' in pcfg.grammar:
+            for g in pcfg.grammar['M']:
+                got_g += [(v, g['prob']) for v in g['values']]
+        views.append(('G', 'Omen/pcfg_omen_prob.txt', ok_g and 'M' in (pcfg.grammar if pcfg else {}), want, got_g))
     # --- what the trainer MEANT to write (its in-memory counters) against what is on disk (neutral reading): values only
     pp = res['captured'].get('pcfg_parser')
     if pp is not None:
@@ -198,6 +207,7 @@ def file_traces(tid0, res, encoding, meta, desc):
 
 def main(pid, tier, seed):
     t0 = time.time()
+    n_tiny = [0]
     rng = random.Random(seed)
     verdict = core.Verdict(pid)
     members = linefmt.class_table()
@@ -257,6 +267,19 @@ def main(pid, tier, seed):
                         'special_chars': ['U+%04X' % ord(c) for _, c in grp if ord(c) > 0x7e or c == ' '][:30]}
                 tr, tid = file_traces(tid, res, enc, meta, desc)
                 traces += tr
+                if gi == 0 and variant == 'plain' and enc != 'utf-16':
+                    # the same ruleset as a training on tens of millions of passwords leaves it: level probabilities
+                    # (share of the passwords / keyspace) of 1e-17 and below, some of them closer together than the machine
+                    # epsilon, one of them 0.0 - they are different numbers and must be read back as written
+                    mp = os.path.join(res['dir'], 'Omen', 'pcfg_omen_prob.txt')
+                    recs = rulesets.neutral_value_prob(mp, enc)
+                    tiny = [3.1e-3, 4.5e-9, 1.6263032587282567e-17, 2.5641025641025642e-18, 0.0, 7.1e-19, 7.0e-19, 0.0, 3e-300, 5e-324]
+                    with open(mp, 'w', encoding=enc, newline='') as f:
+                        for i_, (v_, _) in enumerate(recs):
+                            f.write('%s\t%s\n' % (v_, repr(tiny[i_ % len(tiny)])))
+                    tr, tid = file_traces(tid, res, enc, meta, dict(desc, variant='level probabilities of a very large training'))
+                    traces += tr
+                    n_tiny[0] += 1
 
     # ---- a ruleset trained again IN PLACE on a list that lacks whole categories (no walk, digit, symbol, capital, year):
     # ---- what the second training wrote must again be what every loader reads, and the config lists = the files present
@@ -302,7 +325,7 @@ def main(pid, tier, seed):
            'model_checking': mc, 'evaluations': len(traces), 'distinct_nontrivial': distinct,
            'rule': 'one trace = one rule file of one real training (accepted special characters of every class in every position, '
                    'per encoding) as one real loader read it, against the LF-only neutral reading; plus config.ini lists',
-           'code_points_classified': 0x110000, 'representatives_probed': sum(len(v) for v in reps.values()),
+           'rulesets_with_level_probabilities_below_the_machine_epsilon': n_tiny[0], 'code_points_classified': 0x110000, 'representatives_probed': sum(len(v) for v in reps.values()),
            'trainings': n_train, 'trace_validation': st, 'exhaustive': False, 'binding_selftest': selftest,
            'known_findings_reproduced': n_known, 'violation_histogram': verdict.histogram()}
     core.write_evidence(pid, tier, seed, 'model_checking', cov, time.time() - t0, violations=n_viol,
